@@ -21,6 +21,7 @@ static std::vector<float> all_data_of(const std::vector<std::vector<float>>& dat
 enum Kind { KICKY, KICKX, RFLIN, RFSIN, DRIFT, FP3, FP4, IDENT, WAKE, NKIND };
 static const char* KN[] = {"KickMap.y", "KickMap.x", "RFKickMap.linear", "RFKickMap.sin", "DriftMap", "FokkerPlanck.3", "FokkerPlanck.4", "Identity", "WakePotentialMap"};
 
+static int FPT = 3;   // Fokker-Planck variant (0 none, 1 damping only, 2 diffusion only, 3 full) for the FP kinds
 struct Built { std::shared_ptr<SourceMap> m; psptr in, out; std::shared_ptr<ElectricField> f; std::shared_ptr<Impedance> z; };
 
 // build a map of the given kind for the CURRENT static size; fields[b] = displacement field of bunch b (kick kinds)
@@ -47,7 +48,7 @@ static Built build(int kind, unsigned n, unsigned nb, unsigned it, int var, cons
         std::vector<float> slip = {angle, var == 1 ? 0.3f * angle : 0.f, var == 2 ? -0.2f * angle : 0.f};
         B.m = std::make_shared<DriftMap>(B.in, B.out, slip, 1.3e9f, itt, false, nullptr); break; }
     case FP3: case FP4:
-        B.m = std::make_shared<FokkerPlanckMap>(B.in, B.out, n, n, (FokkerPlanckMap::FPType)(1 + var), FokkerPlanckMap::FPTracking::none,
+        B.m = std::make_shared<FokkerPlanckMap>(B.in, B.out, n, n, (FokkerPlanckMap::FPType)FPT, FokkerPlanckMap::FPTracking::none,
                                                 var == 2 ? 1e-2 : 1e-3, kind == FP3 ? FokkerPlanckMap::DerivationType::two_sided : FokkerPlanckMap::DerivationType::cubic, nullptr);
         break;
     case IDENT: B.m = std::make_shared<Identity>(B.in, B.out, nullptr); break;
@@ -70,7 +71,9 @@ int main(int argc, char** argv) {
     std::vector<unsigned> nbs = T ? std::vector<unsigned>{2, 3, 4} : std::vector<unsigned>{2};
     for (unsigned n : ns) for (unsigned nb : nbs) for (int kind = 0; kind < NKIND; kind++) for (unsigned it = 1; it <= 4; it++)
     for (int var = 0; var < 4; var++) for (int dv = 0; dv < 2; dv++) {
-        if (var == 3 && kind != KICKY) continue;   // var 3: rows of one bunch displaced beyond the grid (y-kick fields only)
+        // var 3: rows of one bunch displaced beyond the grid (y-kick fields); for the Fokker-Planck kinds var selects the variant {none, damping, diffusion, full}
+        if (var == 3 && kind != KICKY && kind != FP3 && kind != FP4) continue;
+        FPT = var;
         if ((kind == FP3 || kind == FP4 || kind == IDENT) && it > 1) continue;   // interpolation order is not a parameter of these
         std::string kase = mcx::Desc()("map", KN[kind])("n", n)("nb", nb)("it", it)("var", var)("data", dv).str();
         if (!R.mine(kase)) continue;
@@ -139,6 +142,6 @@ int main(int argc, char** argv) {
             }
         }
     }
-    R.bound_done(std::string("map classes x n x nb x it x 3 parameter variants (+ off-grid rows for y-kicks) x 2 data variants, ") + (T ? "n{8,12,13,16,24} nb{2,3,4}" : "n{8,9} nb{2}"));
+    R.bound_done(std::string("map classes x n x nb x it x 3 parameter variants (+ off-grid rows for y-kicks; all 4 Fokker-Planck variants) x 2 data variants, ") + (T ? "n{8,12,13,16,24} nb{2,3,4}" : "n{8,9} nb{2}"));
     return R.finish();
 }
